@@ -3,6 +3,7 @@ package vatomic
 
 import (
 	"sync/atomic"
+	"unsafe"
 
 	"verif/mc/vsched"
 )
@@ -27,3 +28,140 @@ func AddUint64(p *uint64, d uint64) uint64 { vsched.Point("atomic.Add"); return 
 func LoadInt64(p *int64) int64             { vsched.Point("atomic.Load"); return atomic.LoadInt64(p) }
 func StoreInt64(p *int64, v int64)         { vsched.Point("atomic.Store"); atomic.StoreInt64(p, v) }
 func AddInt64(p *int64, d int64) int64     { vsched.Point("atomic.Add"); return atomic.AddInt64(p, d) }
+
+func SwapInt32(p *int32, v int32) int32 { vsched.Point("atomic.Swap"); return atomic.SwapInt32(p, v) }
+func CompareAndSwapInt32(p *int32, o, n int32) bool {
+	vsched.Point("atomic.CAS")
+	return atomic.CompareAndSwapInt32(p, o, n)
+}
+func SwapInt64(p *int64, v int64) int64 { vsched.Point("atomic.Swap"); return atomic.SwapInt64(p, v) }
+func CompareAndSwapInt64(p *int64, o, n int64) bool {
+	vsched.Point("atomic.CAS")
+	return atomic.CompareAndSwapInt64(p, o, n)
+}
+func SwapUint64(p *uint64, v uint64) uint64 {
+	vsched.Point("atomic.Swap")
+	return atomic.SwapUint64(p, v)
+}
+func CompareAndSwapUint64(p *uint64, o, n uint64) bool {
+	vsched.Point("atomic.CAS")
+	return atomic.CompareAndSwapUint64(p, o, n)
+}
+func LoadUintptr(p *uintptr) uintptr     { vsched.Point("atomic.Load"); return atomic.LoadUintptr(p) }
+func StoreUintptr(p *uintptr, v uintptr) { vsched.Point("atomic.Store"); atomic.StoreUintptr(p, v) }
+func SwapUintptr(p *uintptr, v uintptr) uintptr {
+	vsched.Point("atomic.Swap")
+	return atomic.SwapUintptr(p, v)
+}
+func AddUintptr(p *uintptr, d uintptr) uintptr {
+	vsched.Point("atomic.Add")
+	return atomic.AddUintptr(p, d)
+}
+func CompareAndSwapUintptr(p *uintptr, o, n uintptr) bool {
+	vsched.Point("atomic.CAS")
+	return atomic.CompareAndSwapUintptr(p, o, n)
+}
+
+func LoadPointer(p *unsafe.Pointer) unsafe.Pointer {
+	vsched.Point("atomic.Load")
+	return atomic.LoadPointer(p)
+}
+func StorePointer(p *unsafe.Pointer, v unsafe.Pointer) {
+	vsched.Point("atomic.Store")
+	atomic.StorePointer(p, v)
+}
+func SwapPointer(p *unsafe.Pointer, v unsafe.Pointer) unsafe.Pointer {
+	vsched.Point("atomic.Swap")
+	return atomic.SwapPointer(p, v)
+}
+func CompareAndSwapPointer(p *unsafe.Pointer, o, n unsafe.Pointer) bool {
+	vsched.Point("atomic.CAS")
+	return atomic.CompareAndSwapPointer(p, o, n)
+}
+
+// ---- the typed values of sync/atomic ----
+
+type Value struct{ v atomic.Value }
+
+func (x *Value) Load() any      { vsched.Point("atomic.Load"); return x.v.Load() }
+func (x *Value) Store(v any)    { vsched.Point("atomic.Store"); x.v.Store(v) }
+func (x *Value) Swap(v any) any { vsched.Point("atomic.Swap"); return x.v.Swap(v) }
+func (x *Value) CompareAndSwap(o, n any) bool {
+	vsched.Point("atomic.CAS")
+	return x.v.CompareAndSwap(o, n)
+}
+
+type Bool struct{ v atomic.Bool }
+
+func (x *Bool) Load() bool       { vsched.Point("atomic.Load"); return x.v.Load() }
+func (x *Bool) Store(v bool)     { vsched.Point("atomic.Store"); x.v.Store(v) }
+func (x *Bool) Swap(v bool) bool { vsched.Point("atomic.Swap"); return x.v.Swap(v) }
+func (x *Bool) CompareAndSwap(o, n bool) bool {
+	vsched.Point("atomic.CAS")
+	return x.v.CompareAndSwap(o, n)
+}
+
+type Pointer[T any] struct{ v atomic.Pointer[T] }
+
+func (x *Pointer[T]) Load() *T     { vsched.Point("atomic.Load"); return x.v.Load() }
+func (x *Pointer[T]) Store(v *T)   { vsched.Point("atomic.Store"); x.v.Store(v) }
+func (x *Pointer[T]) Swap(v *T) *T { vsched.Point("atomic.Swap"); return x.v.Swap(v) }
+func (x *Pointer[T]) CompareAndSwap(o, n *T) bool {
+	vsched.Point("atomic.CAS")
+	return x.v.CompareAndSwap(o, n)
+}
+
+type Int32 struct{ v atomic.Int32 }
+
+func (x *Int32) Load() int32        { vsched.Point("atomic.Load"); return x.v.Load() }
+func (x *Int32) Store(v int32)      { vsched.Point("atomic.Store"); x.v.Store(v) }
+func (x *Int32) Swap(v int32) int32 { vsched.Point("atomic.Swap"); return x.v.Swap(v) }
+func (x *Int32) Add(d int32) int32  { vsched.Point("atomic.Add"); return x.v.Add(d) }
+func (x *Int32) CompareAndSwap(o, n int32) bool {
+	vsched.Point("atomic.CAS")
+	return x.v.CompareAndSwap(o, n)
+}
+
+type Int64 struct{ v atomic.Int64 }
+
+func (x *Int64) Load() int64        { vsched.Point("atomic.Load"); return x.v.Load() }
+func (x *Int64) Store(v int64)      { vsched.Point("atomic.Store"); x.v.Store(v) }
+func (x *Int64) Swap(v int64) int64 { vsched.Point("atomic.Swap"); return x.v.Swap(v) }
+func (x *Int64) Add(d int64) int64  { vsched.Point("atomic.Add"); return x.v.Add(d) }
+func (x *Int64) CompareAndSwap(o, n int64) bool {
+	vsched.Point("atomic.CAS")
+	return x.v.CompareAndSwap(o, n)
+}
+
+type Uint32 struct{ v atomic.Uint32 }
+
+func (x *Uint32) Load() uint32         { vsched.Point("atomic.Load"); return x.v.Load() }
+func (x *Uint32) Store(v uint32)       { vsched.Point("atomic.Store"); x.v.Store(v) }
+func (x *Uint32) Swap(v uint32) uint32 { vsched.Point("atomic.Swap"); return x.v.Swap(v) }
+func (x *Uint32) Add(d uint32) uint32  { vsched.Point("atomic.Add"); return x.v.Add(d) }
+func (x *Uint32) CompareAndSwap(o, n uint32) bool {
+	vsched.Point("atomic.CAS")
+	return x.v.CompareAndSwap(o, n)
+}
+
+type Uint64 struct{ v atomic.Uint64 }
+
+func (x *Uint64) Load() uint64         { vsched.Point("atomic.Load"); return x.v.Load() }
+func (x *Uint64) Store(v uint64)       { vsched.Point("atomic.Store"); x.v.Store(v) }
+func (x *Uint64) Swap(v uint64) uint64 { vsched.Point("atomic.Swap"); return x.v.Swap(v) }
+func (x *Uint64) Add(d uint64) uint64  { vsched.Point("atomic.Add"); return x.v.Add(d) }
+func (x *Uint64) CompareAndSwap(o, n uint64) bool {
+	vsched.Point("atomic.CAS")
+	return x.v.CompareAndSwap(o, n)
+}
+
+type Uintptr struct{ v atomic.Uintptr }
+
+func (x *Uintptr) Load() uintptr          { vsched.Point("atomic.Load"); return x.v.Load() }
+func (x *Uintptr) Store(v uintptr)        { vsched.Point("atomic.Store"); x.v.Store(v) }
+func (x *Uintptr) Swap(v uintptr) uintptr { vsched.Point("atomic.Swap"); return x.v.Swap(v) }
+func (x *Uintptr) Add(d uintptr) uintptr  { vsched.Point("atomic.Add"); return x.v.Add(d) }
+func (x *Uintptr) CompareAndSwap(o, n uintptr) bool {
+	vsched.Point("atomic.CAS")
+	return x.v.CompareAndSwap(o, n)
+}
